@@ -218,8 +218,29 @@ func runSelection(t *testing.T, tape *kernel.Tape) *kernel.Result {
 				Body: &ctxBody{ctx: req.Context(), r: bytes.NewReader(body)}, ContentLength: int64(len(body)), Request: req, Proto: "HTTP/1.1", ProtoMajor: 1, ProtoMinor: 1}, nil
 		})
 	}
-	rt := client.New("sim.local", "/", []string{"http"})
-	rt.Transport = mkTransport("runtime")
+	// how the Runtime came to be, and through which door the call goes in
+	construction := tape.Choose(4, "runtime-construction") // 0 New 1 NewWithClient 2 New + connection reuse 3 NewWithClient + connection reuse
+	via := tape.Weighted("submit-via", 3, 1, 1)            // 0 Runtime.Submit 1 the OpenTelemetry wrapper 2 the OpenTracing wrapper
+	var rt *client.Runtime
+	if construction == 1 || construction == 3 {
+		rt = client.NewWithClient("sim.local", "/", []string{"http"}, &http.Client{Transport: mkTransport("runtime")})
+	} else {
+		rt = client.New("sim.local", "/", []string{"http"})
+		rt.Transport = mkTransport("runtime")
+	}
+	if construction >= 2 {
+		rt.EnableConnectionReuse()
+	}
+	if construction != 0 || via != 0 {
+		env.Fault(fmt.Sprintf("construction-%d-via-%d", construction, via))
+	}
+	submit := rt.Submit
+	switch via {
+	case 1:
+		submit = rt.WithOpenTelemetry().Submit
+	case 2:
+		submit = rt.WithOpenTracing().Submit
+	}
 	rt.Consumers = mkRegistry(mask, catchAll)
 	rt.DefaultMediaType = defMT
 	if rtCtx {
@@ -313,7 +334,7 @@ func runSelection(t *testing.T, tape *kernel.Tape) *kernel.Result {
 		}
 	}
 	var err error
-	if pm := kernel.Catch(func() { _, err = rt.Submit(op) }); pm != "" {
+	if pm := kernel.Catch(func() { _, err = submit(op) }); pm != "" {
 		env.Violate("C13/panic", sp.class, "Submit panicked: %s", pm)
 		res.FromEnv(env)
 		return res
